@@ -81,6 +81,13 @@ def step (st : St) (toks : List String) : St × String :=
     match bits? id with
     | some id => (st, match st.rt.getBucket id with | some (p, b) => showBits p ++ " " ++ showBits b.pfx | none => "keyerror")
     | none => bad
+  | ["rt.refresh", r, keys] =>
+    match r.toNat?, (if keys == "none" then some [] else (Proto.splitChar keys ',').mapM bits?) with
+    | some r, some ks =>
+      let res := st.rt.refresh Gen.idWidth (fun k => ks.contains k) (fun k => r % Gen.genIdDrawBound (Gen.idWidth - k.length))
+      let items := res.map (fun kt => showBits kt.1 ++ ">" ++ (match kt.2 with | some id => showBits id | none => "raised"))
+      (st, "|".intercalate (sortBy (fun a b => a < b) items))
+    | _, _ => bad
   | ["rt.dump"] =>
     -- keys of the trie with the bucket stored there, in key order
     let ks := st.rt.trie.keys
